@@ -181,6 +181,9 @@ def gen_strings(run, maxlen):
 OPT_KEYS = ["filter_unused_linenum", "initialize_vars", "default_width32", "output_dependencies", "skip_procedure_headers", "add_standard_prefix", "add_suffix"]
 
 
+PROCNAMES_EXTRA = ("lorem", "rem", "REM", "xrem1", "data", "run", "procedure", "a'b", 'q"r', "(*x")
+
+
 def gen_options(run):
     cases = []
     corpus = [K.program_for([s]) for _, s, _ in K.CATALOGUE]
@@ -191,9 +194,11 @@ def gen_options(run):
             if quick and pi % 8 != 0 and sum(bits) not in (0, 1, len(OPT_KEYS) - 1, len(OPT_KEYS)):
                 continue  # quick: full cube on every 8th program, 0/1/all-1/all flips elsewhere
             for sz in (32, 80) if (not quick or pi % 8 == 0) else (32,):
-                for pn in ("", "prog", "my-prog", "a.b", "_x", "ecb_str", "inkey", "_ecb_start", "ecb_hprint"):
+                for pn in ("", "prog", "my-prog", "a.b", "_x", "ecb_str", "inkey", "_ecb_start", "ecb_hprint") + PROCNAMES_EXTRA:
                     if pn not in ("", "prog") and (quick and pi % 8 != 0):
                         continue
+                    if pn in PROCNAMES_EXTRA and quick and (sz != 32 or sum(bits) not in (0, 1, len(OPT_KEYS) - 1, len(OPT_KEYS))):
+                        continue  # quick: names that look like BASIC / BASIC09 words get the 0/1/all-but-one/all option sets
                     o = dict(zip(OPT_KEYS, bits))
                     o["default_str_storage"] = sz
                     o["procname"] = pn
@@ -273,7 +278,7 @@ def cli_names(run, scratch):
         names.append(s + ".bas")
         names.append(s + ".x.bas")
         names.append(s)
-    names += ["ecb_str.bas", "_ecb_start.bas", "inkey.bas", "program.bas", "procedure.bas", "a b.bas"]
+    names += ["ecb_str.bas", "_ecb_start.bas", "inkey.bas", "program.bas", "procedure.bas", "a b.bas", "lorem.bas", "rem.bas", "REM", "theorem.x.bas", "data.bas", "run.bas", "a'b.bas", "(x).bas", "é.bas", "RUN ecb_play.bas"]
     d = os.path.join(scratch, "cli")
     os.makedirs(d, exist_ok=True)
     for nm in names:
